@@ -2,7 +2,7 @@
 structured skeleton  [flag? sig] seq (key val)*  recovered from MIR."""
 import rlpclass
 from common import short
-from kernel import ok_payload, same_value, strip, unmut
+from kernel import ok_payload, same_projection, same_value, strip, unmut
 
 
 class Emission:
@@ -44,7 +44,7 @@ def sink_emissions(ctx, fn, root, via_param):
             if c.name == "encode" and (c.trait or "").endswith("alloy_rlp::Encodable") and sink_arg == 1:
                 v = strip(an.operand_expr(t.args[0], bb, idx))
                 e = Emission("rlp", rlpclass.encoder_class(c), v, bb, t.sp, t)
-            elif c.name in ("extend_from_slice", "put_slice", "put") and sink_arg == 0 and len(t.args) == 2:
+            elif c.name in ("extend_from_slice", "put_slice", "put", "unsplit") and sink_arg == 0 and len(t.args) == 2:
                 v = strip(an.operand_expr(t.args[1], bb, idx))
                 e = Emission("raw", None, v, bb, t.sp, t)
             elif c.name == "encode" and "alloy_rlp::Header" in c.fn and sink_arg == 1:
@@ -294,6 +294,17 @@ def is_encoding_of_self(ctx, f, an, e, buf_local=None):
             buf_local = ee.a[1]
     if buf_local is None:
         return False
+    # built from the same parts as encode(): list-header(len(S)) || S with S = signature seq pairs
+    if not f.j.get("flat"):
+        from rules.c01 import framed_flat
+        fg = ctx.flat(f)
+        # the local has the same number in the flattened body only if nothing was spliced in front of it: locate it by its definition site
+        if len(fg.locals) >= len(f.locals) and buf_local < len(f.locals) and fg.locals[buf_local]["ty"]["s"] == f.locals[buf_local]["ty"]["s"]:
+            try:
+                if not framed_flat(ctx, f, True, None, out_local=buf_local):
+                    return True
+            except Exception:
+                pass
     d = shapes.def_expr(an, buf_local)
     muts = shapes.mutations(an, buf_local)
     d = unmut(d) if d is not None else None
@@ -337,11 +348,24 @@ def check_direct_framed(ctx, fn, out_root, out_via, record_pred, sig_mode, what)
     lst = strip(hv.a[1].get("list"))
     if not (lst.k == "const" and lst.a[0] == 1):
         problems.append("header is not a list header")
-    atoms, cst = guards.linear(hv.a[1].get("payload_length"), const_int, strip)
-    if cst != 0:
-        problems.append("the header length contains the constant %d" % cst)
     pre = [e for e in em[1:] if e.loop is None]
     inl = [e for e in em[1:] if e.loop is not None]
+    problems += length_mirror(ctx, hv.a[1].get("payload_length"), pre, inl, record_pred)
+    return problems
+
+
+def length_mirror(ctx, length_expr, pre, inl, record_pred):
+    """problems unless length_expr = sum of the length()/len() terms of exactly
+    the emissions `pre` (outside the pair loop) and `inl` (key, value of one
+    iteration over the whole map)"""
+    import closures
+    import guards
+    from kernel import E, closure_of
+    from rules.typestate import const_int
+    problems = []
+    atoms, cst = guards.linear(length_expr, const_int, strip)
+    if cst != 0:
+        problems.append("the header length contains the constant %d" % cst)
     terms = [strip(a) for a in atoms]
     used = set()
 
@@ -349,9 +373,9 @@ def check_direct_framed(ctx, fn, out_root, out_via, record_pred, sig_mode, what)
         """t is the length term of one emission"""
         if emission.kind == "rlp":
             return t.k == "call" and t.a[0].name == "length" and (t.a[0].trait or "").endswith("alloy_rlp::Encodable") and t.a[1] and \
-                rlpclass.encoder_class(t.a[0]) == emission.cls and same_value(unmut(t.a[1][0]), unmut(emission.value))
+                rlpclass.encoder_class(t.a[0]) == emission.cls and (same_value(unmut(t.a[1][0]), unmut(emission.value)) or same_projection(t.a[1][0], emission.value))
         if emission.kind == "raw":
-            return t.k == "call" and t.a[0].name == "len" and t.a[1] and same_value(unmut(t.a[1][0]), unmut(emission.value))
+            return t.k == "call" and t.a[0].name == "len" and t.a[1] and (same_value(unmut(t.a[1][0]), unmut(emission.value)) or same_projection(t.a[1][0], emission.value))
         return False
 
     for e in pre:
